@@ -39,7 +39,7 @@ def run(ctx):
         # every dirty page before the header, the header promising LSNs and pages beyond everything written, nothing unlogged on disk
         seeds = [ctx.seed * 1000 + 400 + i for i in range(3 if ctx.quick() else 12)]
         storelib.random_runs(ctx, pool, cov, [dict(seed=sd, n=(200 if ctx.quick() else 500), caps=([3, 3] if i % 2 == 0 else []), cache=0, pcrash=0.05,
-                                                   pflush=0.3, wal=False, maxrows=(5 if i % 2 == 0 else 20)) for i, sd in enumerate(seeds)])
+                                                   pflush=0.3, pfail=0.25, wal=False, maxrows=(5 if i % 2 == 0 else 20)) for i, sd in enumerate(seeds)])
         if not ctx.quick():
             storelib.design_only(ctx, "big", dict(FlushSteps="TRUE", CrashAt='{"flush", "idle"}', MaxStmts=5, MaxRows=2, MaxFlush=2, MaxCrash=2, Tables='{"t1"}', Vals="{1}"), cov, timeout=300)
     finally:
